@@ -1,7 +1,7 @@
 """C07 — applying a rewrite replaces only the match."""
 # the removability guard of the matcher (_valid_to_replace) decides which instances a removing rule may touch: 'all other
 # nodes, values ... are untouched' and 'apply_to_model returns' depend on it
-MODULES = ["contracts.c07_rewrite", "contracts.c06_matcher:valid_to_replace", "contracts.c06_state:get_replacement"]
+MODULES = ["contracts.c07_rewrite", "contracts.c06_matcher:valid_to_replace", "contracts.c06_state:get_replacement", "contracts.c06_state:rule_set"]
 
 CLASH = '''
 import sys
